@@ -23,6 +23,7 @@ RULE = (
     ' Round 5: one stream with a beat of denominator 1000003.'
     ' Round 6: columns (and notes) passed by keyword.'
     " Round 7: a stream whose production calls from_notes itself; the caller's list reused after the call."
+    ' Round 8: a pass resumed after another complete pass.'
 )
 ASSUMPTIONS = ["the scanner's notion of measure/row (split on '&', ',', lines) is the documented text format"]
 MONITORS = ["readback", "structure", "fixed_point"]
